@@ -1242,6 +1242,9 @@ impl Opcode for SelfDestruct {
         // we would lose info
         vm.state()?.record_value(destroy);
 
+        // Execution halts after a self-destruct, so this thread is done
+        vm.kill_current_thread();
+
         // Done, so return ok
         Ok(())
     }
